@@ -5,6 +5,7 @@ package main
 // symbolic state.
 
 import (
+	"sort"
 	"fmt"
 	"go/ast"
 	"go/token"
@@ -302,7 +303,8 @@ func (e *SpecEnv) tr(x ast.Expr) Term {
 		base := e.tr(x.X)
 		if mi, ok := fx.reg.maps[base.Sort]; ok {
 			k := e.coerce(e.tr(x.Index), mi.K)
-			return Term{S: ite(sel(sel(fx.H(e.cur, mi.Dom), base.S), k.S), sel(sel(fx.H(e.cur, mi.Val), base.S), k.S), fx.reg.Zero(mi.V)), Sort: mi.V, T: mi.VT}
+			fx.H(e.cur, mi.Dom)
+			return Term{S: sel(sel(fx.H(e.cur, mi.Val), base.S), k.S), Sort: mi.V, T: mi.VT}
 		}
 		if base.Sort == "Slice" {
 			if base.T == nil {
@@ -394,7 +396,19 @@ func (e *SpecEnv) trCall(x *ast.CallExpr) Term {
 			binds = append(binds, "("+v+" "+srt+")")
 			sub.bound[id.Name] = Term{S: v, Sort: srt, T: t}
 		}
-		body := sub.Bool(args[len(args)-1])
+		// trig(p1, ..., pn, body): explicit instantiation pattern
+		last := args[len(args)-1]
+		if c, ok := last.(*ast.CallExpr); ok {
+			if id, ok := c.Fun.(*ast.Ident); ok && id.Name == "trig" && len(c.Args) >= 2 {
+				var pats []string
+				for _, pa := range c.Args[:len(c.Args)-1] {
+					pats = append(pats, sub.tr(pa).S)
+				}
+				body := sub.Bool(c.Args[len(c.Args)-1])
+				return Term{S: "(" + name + " (" + strings.Join(binds, " ") + ") (! " + body + " :pattern (" + strings.Join(pats, " ") + ")))", Sort: "Bool"}
+			}
+		}
+		body := sub.Bool(last)
 		return Term{S: "(" + name + " (" + strings.Join(binds, " ") + ") " + body + ")", Sort: "Bool"}
 	case "imp":
 		need(2)
@@ -679,6 +693,9 @@ func (e *SpecEnv) trCall(x *ast.CallExpr) Term {
 		if e.depth > 40 {
 			e.fail("ghost expansion too deep (recursive ghost %s?)", gname)
 		}
+		if g.Named || (g.NamedX && fx.pkg.PkgPath != g.PkgPath) {
+			return e.namedGhost(g, gpkg, actual, rs, rt)
+		}
 		sub := &SpecEnv{fx: fx, cur: e.cur, old: e.old, now: e.now, bound: map[string]Term{}, pkg: gpkg, depth: e.depth + 1, where: e.where + ">" + gname}
 		for i, p := range g.Params {
 			sub.bound[p.Name] = actual[i]
@@ -713,4 +730,125 @@ func (fx *FuncExec) declUF(g *GhostFunc, gpkg *types.Package) {
 	}
 	rs, _ := fx.typeFromString(g.Result, gpkg)
 	fx.reg.declFun(n, fmt.Sprintf("(declare-fun %s (%s) %s)", n, strings.Join(ps, " "), rs))
+}
+
+
+// namedDef is the translation of a pred: a function symbol over the heap
+// components its body reads plus its parameters, with a defining axiom.
+type namedDef struct {
+	fn    string
+	comps []string // heap components (registry names) passed, in order
+	olds  []string // heap components of the old state passed after them
+}
+
+// namedGhost translates an application of a pred. The body is translated
+// once against placeholder heap components; the components that occur become
+// leading parameters of the function symbol, so that two applications in
+// states that agree on those components are syntactically the same atom and
+// the solver unfolds the definition only when it has to.
+func (e *SpecEnv) namedGhost(g *GhostFunc, gpkg *types.Package, actual []Term, rs string, rt types.Type) Term {
+	fx := e.fx
+	r := fx.reg
+	if r.named == nil {
+		r.named = map[string]*namedDef{}
+	}
+	nd := r.named[g.Name]
+	if nd == nil {
+		var body string
+		var used, usedOld []string
+		for attempt := 0; ; attempt++ {
+			T := &State{vars: map[string]string{}}
+			O := &State{vars: map[string]string{}}
+			for comp := range r.compSort {
+				T.vars[comp] = "HP_" + comp
+				O.vars[comp] = "HO_" + comp
+			}
+			sub := &SpecEnv{fx: fx, cur: T, old: O, now: T, bound: map[string]Term{}, pkg: gpkg, depth: e.depth + 1, where: e.where + ">" + g.Name}
+			for i, p := range g.Params {
+				srt, t := fx.typeFromString(p.Type, gpkg)
+				sub.bound[p.Name] = Term{S: fmt.Sprintf("PP_%s_%d", g.Name, i), Sort: srt, T: t}
+			}
+			bt := sub.coerce(sub.tr(g.Body), rs)
+			body = bt.S
+			syms := map[string]bool{}
+			symbolsOf(body, syms)
+			late := false
+			used, usedOld = used[:0], usedOld[:0]
+			for sy := range syms {
+				if strings.HasPrefix(sy, "H0_") {
+					late = true
+				}
+				if strings.HasPrefix(sy, "HP_") {
+					used = append(used, strings.TrimPrefix(sy, "HP_"))
+				}
+				if strings.HasPrefix(sy, "HO_") {
+					usedOld = append(usedOld, strings.TrimPrefix(sy, "HO_"))
+				}
+			}
+			if !late {
+				break
+			}
+			if attempt > 3 {
+				e.fail("pred %s: body reads heap components that cannot be parameterised", g.Name)
+			}
+		}
+		sort.Strings(used)
+		sort.Strings(usedOld)
+		fn := "gd_" + g.Name
+		var binders, psorts, args []string
+		for _, c := range used {
+			binders = append(binders, fmt.Sprintf("(HP_%s %s)", c, r.compSort[c]))
+			psorts = append(psorts, r.compSort[c])
+			args = append(args, "HP_"+c)
+		}
+		for _, c := range usedOld {
+			binders = append(binders, fmt.Sprintf("(HO_%s %s)", c, r.compSort[c]))
+			psorts = append(psorts, r.compSort[c])
+			args = append(args, "HO_"+c)
+		}
+		for i, p := range g.Params {
+			srt, _ := fx.typeFromString(p.Type, gpkg)
+			binders = append(binders, fmt.Sprintf("(PP_%s_%d %s)", g.Name, i, srt))
+			psorts = append(psorts, srt)
+			args = append(args, fmt.Sprintf("PP_%s_%d", g.Name, i))
+		}
+		r.declFun(fn, fmt.Sprintf("(declare-fun %s (%s) %s)", fn, strings.Join(psorts, " "), rs))
+		app := "(" + fn + " " + strings.Join(args, " ") + ")"
+		ax := fmt.Sprintf("(assert (forall (%s) (! (= %s %s) :pattern (%s))))", strings.Join(binders, " "), app, body, app)
+		r.axioms = append(r.axioms, ax)
+		r.axiomPkg[ax] = g.PkgPath
+		if r.namedAxiom == nil {
+			r.namedAxiom = map[string]string{}
+			r.namedDeps = map[string]map[string]bool{}
+		}
+		r.namedAxiom[ax] = fn
+		deps := map[string]bool{}
+		bs := map[string]bool{}
+		symbolsOf(body, bs)
+		for sy := range bs {
+			if strings.HasPrefix(sy, "gd_") {
+				deps[sy] = true
+			}
+		}
+		r.namedDeps[fn] = deps
+		nd = &namedDef{fn: fn, comps: append([]string(nil), used...), olds: append([]string(nil), usedOld...)}
+		r.named[g.Name] = nd
+	}
+	var as []string
+	for _, c := range nd.comps {
+		as = append(as, fx.H(e.cur, c))
+	}
+	if len(nd.olds) > 0 {
+		o := e.old
+		if o == nil {
+			e.fail("pred %s reads the old state, but there is none here", g.Name)
+		}
+		for _, c := range nd.olds {
+			as = append(as, fx.H(o, c))
+		}
+	}
+	for _, a := range actual {
+		as = append(as, a.S)
+	}
+	return Term{S: "(" + nd.fn + " " + strings.Join(as, " ") + ")", Sort: rs, T: rt}
 }
